@@ -24,6 +24,7 @@ import (
 const replayPrelude = `
 import (
 	"fmt"
+	"reflect"
 	"runtime"
 )
 
@@ -114,6 +115,7 @@ func vs_done(n int) int { return 0 }
 func vs_called(callee string) bool { panic("vs_oracle: call history is not available at run time") }
 func vs_callResult[T any](callee string, i int) T { panic("vs_oracle: call history is not available at run time") }
 func vs_callArg[T any](callee string, i int) T { panic("vs_oracle: call history is not available at run time") }
+func vs_eq[T any](a, b T) bool { return reflect.DeepEqual(a, b) }
 func vs_same[T any](a, b []T) bool { return len(a) == len(b) && (len(a) == 0 || &a[0] == &b[0]) }
 func vs_has[K comparable, V any](m map[K]V, k K) bool { _, ok := m[k]; return ok }
 `
